@@ -389,6 +389,37 @@ PROPS['C17'] = dict(
 )
 
 
+def render_streams(tier):
+    n = {'quick': 9600, 'extended': 64000, 'thorough': 400000}[tier]
+    return [dict(name='renderers', harness=['render', str(n), '{seed}', '{shard}', '{nshards}'], driver='render', timeout=3000)]
+
+
+PROPS['C19'] = dict(
+    family='line', tags={'N': 'render'},
+    theorems=['C19_pretty_total', 'C19_matcher_diffs_are_renderable', 'C19_highlight_total', 'C19_diff_total', 'C19_pretty_shows_unmatched',
+              'C19_pretty_shows_unexpected', 'C19_diff_hunks_conserve', 'C19_diff_shows_everything', 'C19_no_section_for_pass',
+              'C19_structured_one_entry_per_outcome'],
+    streams=render_streams,
+    spec_kinds=['SPEC:C19'], corr_kinds=['DIFF:pretty', 'DIFF:diff', 'DIFF:wellindexed'],
+    case_format='N <max surrounding lines> <absolute line numbers> <summarize>|<outcome;outcome...: location(hex|~),title,shell expression,line,#expectations,expected exit code|~,c|m,a|u escaper,stdout,stderr,'
+                'result S success K skipped T timeout E<actual>:<expected> I<hex message> M<#output lines>:<m<idx>.<multiline>.<hex to_expression_string>.<first line|~> | u<idx>.<multiline>.<hex expression>.<hex original> | x<line>_<hex bytes>/...>+...>'
+                '|<PrettyColorRenderer: ok:<hex text>/err/panic>|<PrettyMonochromeRenderer ok/err/panic>|<DiffRenderer>|<JsonRenderer, re-parsed: <has location>:<kind>:<diff line kinds> per entry>|<YamlRenderer, re-parsed>',
+    rule='0-4 outcomes per case; each test case has 0-12 output lines and expectations derived from them with omissions, insertions and changes (equal, glob, regex, escaped, no-eol, quantified), validated by the real TestCase::validate, '
+         'so the diffs are real DiffTool diffs; plus synthetic timeout / skipped / internal-error / success results; texts drawn from wide and multi-byte characters, trailing U+3000 / NBSP / tab / space / NEL, control bytes and ANSI sequences, '
+         'invalid and truncated UTF-8, 200-12000 byte lines; line numbers around the 9/10, 99/100, 999/1000 digit boundaries with relative and absolute numbering, 0/1/2/5 surrounding lines; locations absent, mixed or all present. '
+         'Non-trivial: at least one failed outcome; distinct by outcome list',
+    manifest=dict(text='Machine-checked theorems (Coq): the model of the pretty renderer -- with the padding subtraction, the lines[0] access and the byte-offset slicing as explicit panics -- returns a rendering for all outcomes whose diffs are well indexed, and every diff the matcher model can return is well indexed (C02); trailing-whitespace highlighting always slices at a character boundary; the diff renderer never crashes and refuses only mixed locations; '
+                       'every unmatched expectation and every unexpected line of every failed test is a row of the pretty rendering and a -/+ line of the unified diff (the hunks conserve both lists, in order); passed tests contribute nothing; json/yaml have one entry per outcome with its kind. '
+                       'Tied to /repo by rendering generated outcomes (real validate results) with the four real renderers: the pretty and diff texts are compared byte for byte with the extracted model, json/yaml are re-parsed and compared entry by entry, and the shows-everything / no-section-for-pass facts are evaluated on the implementation\'s text.',
+                  technique='Coq proof (monotone decimal width, UTF-8 prefix lengths, induction over diff lines and hunk assembly) + byte-exact differential correspondence of the extracted renderer models against the real renderers',
+                  note='serde_json / serde_yaml / console are external: well-formedness of json/yaml is decided by re-parsing the real output, colours are switched off.'),
+    exhaustive={'quick': False, 'thorough': False},
+    assumptions=['expectation texts (to_expression_string, original_string) are inputs of the renderer model, taken from the implementation; C08 covers them',
+                 'colours disabled (console::set_colors_enabled(false)); the monochrome renderer is only required not to fail',
+                 'a list mixing outcomes with and without location makes the diff renderer return an error by design; scrut itself always sets the location'],
+)
+
+
 def run_one(prop, inp, ctx):
     """re-run one case through the implementation and the model; returns CASE lines"""
     cfg = PROPS[prop]
@@ -400,7 +431,7 @@ def run_one(prop, inp, ctx):
     if fam == 'line':
         # generic: the case line carries the implementation's result; re-evaluate the model/oracle on it
         tag = inp[:1]
-        drv = cfg.get('tags', {}).get(tag) or {'X': 'exec', 'R': 'cli', 'V': 'validate', 'E': 'config', 'A': 'config', 'D': 'config', 'P': 'config', 'S': 'escape'}.get(tag, cfg['streams']('quick')[0]['driver'])
+        drv = cfg.get('tags', {}).get(tag) or {'X': 'exec', 'R': 'cli', 'V': 'validate', 'E': 'config', 'A': 'config', 'D': 'config', 'P': 'config', 'S': 'escape', 'N': 'render'}.get(tag, cfg['streams']('quick')[0]['driver'])
         rc, out = ctx['sh']([ctx['SVD'], drv], inp=(inp + '\n').encode())
         return [l for l in out.split('\n') if l.startswith('CASE')], out
     return [], ''
